@@ -239,7 +239,13 @@ class Pair(object):
         """one link exchange from end e to its peer"""
         out = []
         for p in self.next_pdu(e):
-            enc = pdu.encode(p)
+            try:
+                enc = pdu.encode(p)
+            except pdu.EncodeError:
+                # (in the run loop: exchange() logs it, returns None and the
+                # link is terminated as disrupted)
+                self.sx.check(False, "pdu-not-encodable:%s%s" % (
+                    p.name, ":after-close" if self.led.closed else ""))
             q = pdu.decode(enc)
             for x in (q if q.name == "AGF" else [q]):
                 self.led.crossing(e, x)
@@ -264,11 +270,17 @@ class Pair(object):
     def acks(self, e):
         """poll('acks'): true at most once per acknowledged message"""
         r = self.ends[e].poll("acks", 0.0)
-        if r and not self.led.closed:
-            self.polled = getattr(self, "polled", {"A": 0, "B": 0})
+        if self.led.closed:
+            return "closed"
+        self.polled = getattr(self, "polled", {"A": 0, "B": 0})
+        if r:
             self.polled[e] += 1
             self.sx.check(self.polled[e] <= self.led.ackd[e],
                           "poll-acks-reports-more-than-acknowledged")
+            self.sx.reach("acks:yes")
+        else:
+            self.sx.check(self.polled[e] >= self.led.ackd[e],
+                          "poll-acks-misses-an-acknowledgement")
         return "ack" if r else "noack"
 
     def op(self, name):
@@ -310,8 +322,9 @@ OPS_CORE = ["sendA", "sendB", "recvA", "recvB", "xferA", "xferB"]
 OPS_MORE = OPS_CORE + ["busyB", "sendbigA", "closeA"]
 OPS_ALL = OPS_MORE + ["sendwaitA", "acksA", "busyA", "closeB", "sendbigB"]
 OPS_ONEWAY = ["sendA", "xferA", "xferB", "recvB"]
+OPS_ACKS = ["xferB", "acksA", "sendA", "xferA", "recvB"]
 TABLES = {"core": OPS_CORE, "more": OPS_MORE, "all": OPS_ALL,
-          "oneway": OPS_ONEWAY}
+          "oneway": OPS_ONEWAY, "acks": OPS_ACKS}
 
 
 def run_history(sx, pair, prefix, k, table):
@@ -469,10 +482,15 @@ def partitions(tier):
             add("dlc_pair", [a], 2, "more", warm=[])
         for a in OPS_CORE:
             add("dlc_pair", [a], 2, "core", warm=WARM1)
+        for a in OPS_ACKS:
+            add("dlc_pair", [a], 2, "acks", warm=["sendA", "xferA", "recvB"])
         for a in OPS_CORE:
             add("llc_pair", [a], 2, "core", agf=1)
             add("llc_pair", [a], 2, "core", agf=0)
     else:
+        for a in OPS_ACKS:
+            for b in OPS_ACKS:
+                add("dlc_pair", [a, b], 3, "acks", warm=["sendA", "xferA", "recvB"])
         for a in OPS_CORE:
             for b in OPS_CORE:
                 add("dlc_pair", [a, b], 3, "core", warm=[])
@@ -493,7 +511,7 @@ def partitions(tier):
 
 MUST_REACH = ["send:accepted", "send:EMSGSIZE", "send:window-full",
               "recv:message", "recv:nothing", "wire:I", "wire:RR", "wire:RNR",
-              "wire:ack", "drained", "closed", "llc-pair-established"]
+              "wire:ack", "drained", "closed", "llc-pair-established", "acks:yes"]
 BOUNDS = {
     "quick": "DataLinkConnection pair: RW of both ends symbolic 0..15, initial sequence variables of both directions symbolic 0..15, connection MIU of both ends symbolic 128..2175; histories of up to 4 operations (2 fixed from 9 x 9, 2 picked) out of {send 1 octet / 129 octets on A, send on B, recv on A/B, link exchange A->B / B->A, toggle receiver busy on B, close on A}, and 4 warm-up operations + up to 4 from the 6 core operations; then link exchanges and reads until quiescent.  LogicalLinkController pair: real listen/connect/accept handshake over collect()/dispatch(), link MIU symbolic 128..2175, aggregation on/off, histories of up to 3 core operations",
     "thorough": "as quick with histories of up to 5 operations from 14 (adds blocking send, poll('acks'), busy on A, close on B), up to 6 from the 6 core operations (also after two warm-up prefixes), and LLC pair histories of up to 4 operations",
